@@ -645,6 +645,8 @@ primaryexpr(struct scope *s)
 	struct type *t;
 	char *src, *end;
 	uint_least32_t chr;
+	unsigned long long val;
+	bool hexoct;
 	int base;
 
 	switch (tok.kind) {
@@ -673,12 +675,22 @@ primaryexpr(struct scope *s)
 		case 'L': ++src; t = targ->typewchar; break;
 		case 'u': ++src; t = *src == '8' ? ++src, &typeuchar : &typeushort; break;
 		case 'U': ++src; t = &typeuint; break;
-		default: t = &typeint;
+		default: t = NULL;
 		}
 		assert(*src == '\'');
 		++src;
-		src += decodechar(src, &chr, NULL, "character constant", &tok.loc);
-		e = mkconstexpr(t, chr);
+		hexoct = false;
+		src += decodechar(src, &chr, &hexoct, "character constant", &tok.loc);
+		if (hexoct && !typehasint(t ? t : &typeuchar, chr, false))
+			error(&tok.loc, "escape sequence in character constant is out of range");
+		val = chr;
+		if (!t) {
+			/* an integer character constant has the value of a char converted to int */
+			t = &typeint;
+			if (chr < 0x100 && targ->signedchar)
+				val = (signed char)chr;
+		}
+		e = mkconstexpr(t, val);
 		if (*src != '\'')
 			error(&tok.loc, "character constant contains more than one character: %c", *src);
 		next();
